@@ -72,6 +72,22 @@ class MMod:
                     trk=int(self.tracked), con=int(self.connected))
 
 
+class HMod:
+    """A hostile connection: invisible to the reference model (no well-behaved client subscribes to
+    what it publishes, it uses ids of its own pool); only the simulated kernel knows about it."""
+
+    def __init__(self, idx, conn):
+        self.idx = idx
+        self.conn = conn
+        self.accepted = False
+        self.client_closed = None
+        self.hostile = True
+
+    @property
+    def alive(self):
+        return self.accepted and not self.conn.m.closed
+
+
 class World:
     def __init__(self, cfg: dict, oracles: set, prop: str):
         self.cfg = cfg
@@ -81,6 +97,7 @@ class World:
         self.sim = Sim(timecode=self.timecode, send_msg_timing=bool(cfg.get("timing", True)),
                        log_level=LOGLEVELS[cfg.get("log", "error")])
         self.mods: List[MMod] = []
+        self.hmods: List[HMod] = []
         self.trace: List[dict] = []
         self.seq = 0
         self.pubs: Dict[int, dict] = {}
@@ -105,6 +122,8 @@ class World:
         self.traffic_counts = Counter()
         self.step_events: list = []
         self.frames_per_conn: Dict[int, dict] = {}
+        self.hostile_log: list = []
+        self.hostile_since_delivery: list = []
 
     # ------------------------------------------------------------------------------------------
     def viol(self, key, what):
@@ -208,6 +227,34 @@ class World:
         m.conn.send(data)
         m.queue.append(dict(kind="raw", n=len(data), desc=op.get("desc", "")))
 
+    # ---- hostile connections ------------------------------------------------------------------
+    def op_hopen(self, op):
+        for _ in range(op.get("n", 1)):
+            conn = self.sim.open()
+            h = HMod(len(self.hmods), conn)
+            self.hmods.append(h)
+            self.backlog.append(h)
+            if op.get("hex"):
+                conn.send(bytes.fromhex(op["hex"]))
+
+    def op_hsend(self, op):
+        h = self.hmods[op["h"]]
+        if h.client_closed:
+            return
+        if op.get("hex"):
+            h.conn.send(bytes.fromhex(op["hex"]))
+        then = op.get("then")
+        if then:
+            h.conn.m.peer_gone_mode = op.get("gone", "silent")
+            if then == "rst":
+                h.conn.c.abort()
+            else:
+                h.conn.c.rx.clear()
+                h.conn.c.close()
+            h.client_closed = then
+        self.stats["hostile-" + op.get("desc", "send").split(":")[0]] += 1
+        self.hostile_log.append(op.get("desc", "send"))
+
     def op_close(self, op):
         m = self._mod(op)
         part = op.get("partial", 0)
@@ -243,6 +290,9 @@ class World:
         for m in self.mods:
             if m.tracked and self.sim.readable(m.conn):
                 out.append(m.idx)
+        for h in self.hmods:
+            if h.alive and self.sim.readable(h.conn):
+                out.append(f"h{h.idx}")
         return out
 
     def op_step(self, op):
@@ -268,20 +318,29 @@ class World:
         if "L" in ready and self.backlog:
             nm = self.backlog.popleft()
             nm.accepted = True
-            nm.tracked = True
             self.uid_ctr += 1
-            nm.uid = self.uid_ctr
+            if not getattr(nm, "hostile", False):
+                nm.tracked = True
+                nm.uid = self.uid_ctr
         if served:
-            self.W = {i for i in writable if self.mods[i].tracked}
+            self.W = {i for i in writable if isinstance(i, int) and self.mods[i].tracked}
         plan = []
         for i in served:
+            if not isinstance(i, int):
+                continue  # hostile connection: not part of the model
             m = self.mods[i]
             if not m.queue:
                 raise HarnessError(f"step: conn {i} marked ready but nothing queued")
             plan.append(m)
         # ---- real ----
-        rl = [LISTENER if r == "L" else self.mods[r].conn for r in ready]
-        self.sim.step(rl, [self.mods[i].conn for i in writable], dt)
+        def conn_of(r):
+            return self.mods[r].conn if isinstance(r, int) else self.hmods[int(r[1:])].conn
+
+        rl = [LISTENER if r == "L" else conn_of(r) for r in ready]
+        self.sim.step(rl, [conn_of(i) for i in writable], dt)
+        for h in self.hmods:
+            if not h.client_closed:
+                h.conn.take()  # never observed; keep memory flat
         self.rounds += 1
         # the model consumes after the real step so that "either" outcomes can be resolved by observation
         self.check_alive()
@@ -750,6 +809,8 @@ class World:
                     self.viol("ack/malformed", f"conn {m.idx}: ACK with payload or wrong source {f.brief()}")
             got = [f.dest_mod_id for f in acks]
             is_logger = m.logger and m.connected
+            if is_logger and self.hmods:
+                continue  # copies of acknowledgements to hostile connections (not modelled) arrive here too
             if not is_logger:
                 # removed in this very round after its ack was sent is still fine
                 exp = [m.mod_id] * own
@@ -918,6 +979,7 @@ class World:
             if not cand:
                 break
             live = [m.idx for m in self.mods if m.accepted and not m.client_closed]
+            live += [f"h{h.idx}" for h in self.hmods if h.alive and not h.client_closed]
             self.apply({"op": "step", "ready": cand, "writable": live, "dt": 0.0})
             n += 1
             if n > max_rounds:
